@@ -250,6 +250,8 @@ def run_case(case):
         elif e2[0] == 'yld':
             recv += 1
     res['max_ahead'] = worst
+    if '+' not in case['kind']:
+        res['ahead_slack'] = ['buffer: pulled - handed, relative to maxsize (theorem: <= 2, attained)', worst - case['maxsize']]
     if '+' not in case['kind'] and worst > case['maxsize'] + 2:
         mon.append(dict(prop='C08', rule='lookahead', detail=f'{worst} > maxsize+2 = {case["maxsize"] + 2}'))
     return res
